@@ -147,12 +147,7 @@ pub fn run(tier: Tier) -> i32 {
         if n > 0 && n <= 2049 && l <= 4096 {
             let vals: Vec<Option<PV>> = (0..n).map(|g| if g % 5 == 0 { None } else { Some(PV::Bytes(if g % 3 == 0 { vec![b'a'; l] } else { let mut v = vec![b'b'; l + 1]; v.extend(g.to_string().bytes()); v })) }).collect();
             for enc in [Enc::Plain, Enc::Dict, Enc::DeltaByteArray, Enc::DeltaLengthByteArray] {
-                let delta = matches!(enc, Enc::DeltaByteArray | Enc::DeltaLengthByteArray);
-                // delta streams holding a single value are a known reader defect (C10): keep >= 2 values per page
-                if delta && n < 3 {
-                    continue;
-                }
-                let page_rows = if delta && n < 12 { vec![n] } else { vec![(n / 3).max(1)] };
+                let page_rows = vec![(n / 3).max(1)];
                 let col = Column { name: "t".into(), phys: Phys::ByteArray, logical: Logical::Utf8, optional: true, values: vals.clone(), enc, old_dict_id: false, v2: n % 2 == 0, codec: if l == 12 { Codec::Snappy } else { Codec::None }, levels: LevelMode::Mixed, stats: StatsMode::Exact, page_rows };
                 let (bytes, _) = write_file(&[col], &[n.max(1)]);
                 d.fs.put("f.parquet", bytes.clone());
